@@ -179,7 +179,7 @@ class Design:
                         init = self._static_value(d.init, t, psc) if d.init is not None else None
                         psc.declare(d.name, ("variable", d.name.lower(), t), d)
                         vars_[d.name.lower()] = (t, init)
-                    elif isinstance(d, (P.AttrSpec, P.AttrDecl)):
+                    elif isinstance(d, (P.AttrSpec, P.AttrDecl, P.ArrayDecl, P.EnumDecl)):
                         self._declare(d, psc, arch_level=False)
                     else:
                         raise Unsupported(f"process declaration {type(d).__name__}")
